@@ -427,3 +427,30 @@ pub fn tri(v: &V) -> Option<Option<bool>> {
         _ => None,
     }
 }
+
+// ---------------------------------------------------------------- independent order of flat values
+/// string < boolean < number < NaN < null; numbers by exact value (None for nested values)
+pub fn flat_order(a: &V, b: &V) -> Option<Ordering> {
+    fn rank(v: &V) -> Option<u8> {
+        Some(match v {
+            V::String(_) => 5,
+            V::Bool(_) => 6,
+            V::Int(_) => 7,
+            V::Float(f) if f.is_nan() => 8,
+            V::Float(_) => 7,
+            V::Null => 10,
+            _ => return None,
+        })
+    }
+    let (ra, rb) = (rank(a)?, rank(b)?);
+    if ra != rb {
+        return Some(ra.cmp(&rb));
+    }
+    Some(match (a, b) {
+        (V::String(x), V::String(y)) => x.as_bytes().cmp(y.as_bytes()),
+        (V::Bool(x), V::Bool(y)) => x.cmp(y),
+        (V::Null, V::Null) => Ordering::Equal,
+        _ if ra == 8 => Ordering::Equal,
+        _ => exact_num_cmp(a, b)?,
+    })
+}
